@@ -190,6 +190,28 @@ P("C01",
   assumptions=["rows are uniform-height and pairwise disjoint by construction; movable cells have placed height a positive multiple of the row height"])
 
 
+P("C11",
+  rc={"quick": (12, 8000, 100, 8), "thorough": (14, 100000, 100, 16)},
+  rule=CIRCUIT_RULE + "Restricted to row-high movable cells and |v| < 2^20. The legal placement is either produced by "
+       "legalize from the generated start or constructed by packing cells into free segments with tape-chosen gaps "
+       "(gap 0 likely); legalize is then called again, possibly with other accepted ordering parameters, and every "
+       "x/y/orientation must be unchanged. non-trivial = >= 3 movable cells with two touching in a row or one adjacent "
+       "to an obstruction; distinct = hash of the circuit.",
+  assumptions=["designs with multi-row movable cells are outside the property"])
+
+
+P("C04",
+  rc={"quick": (12, 5000, 100, 8), "thorough": (14, 60000, 100, 16)},
+  exh={"quick": 1, "thorough": 1},
+  rule=CIRCUIT_RULE + "60% of the movable cells carry a polarity (SAME/OPPOSITE on odd, NW/SE on even row counts, 10% "
+       "deliberately mismatched). Oracle: the harness's own polarity table applied to the row at each cell's bottom edge, "
+       "after legalize, inside every Detailed callback of placeDetailed and after it; cells without polarity must keep "
+       "their orientation. non-trivial = a polarised cell ends on another row than the one closest to its start, or "
+       "detailed placement moved a polarised cell to another row; distinct = hash of the circuit. Exhaustive part: "
+       "cellOrientationInRow / oppositeRowOrientation over 5 polarities x 10 enum values.",
+  assumptions=["segments that share a y share an orientation (by construction, as Circuit::report() requires)"])
+
+
 # ----------------------------------------------------------------------------
 def sh(cmd, **kw):
     return subprocess.run(cmd, stdout=subprocess.PIPE, stderr=subprocess.STDOUT, text=True, **kw)
